@@ -1,8 +1,48 @@
-"""C05: walker level (Walker.tla exhaustive + trace validation of the real walker/pool) and CLI level
-(GrogBuild.tla histories with failing commands, timeouts, missing outputs and failing checks replayed into the real binary)."""
-from vlib import walker_engine
+"""C05: walker level (Walker.tla exhaustive + trace validation of the real walker/pool, refinement of Executor.tla) and CLI level
+(GrogBuild.tla histories with failing commands, timeouts, missing outputs and failing checks replayed into the real binary; a
+fail-fast sample that binds the --fail-fast flag and the fail_fast setting to the walker)."""
+import json, os, subprocess
+from vlib import core, walker_engine
 from vlib.checks import _hist
+
+N_WIDE = 8
+
+
+def failfast_cli(chk, tmp):
+    """Executor.tla: once the stop is under way no command starts (XNoCommandAfterStop). At the CLI the stop is under way from the first
+    failure on; with one worker at most the task already handed to the worker can still start its command. N_WIDE independent
+    failing targets, num_workers = 1: keep-going runs all of them, fail-fast must run far fewer and exit non-zero either way."""
+    grog = core.build_grog(tmp)
+    results = {}
+    for how in ("keep-going", "flag", "config"):
+        base = os.path.join(tmp, "ff_" + how)
+        ws = os.path.join(base, "ws")
+        os.makedirs(os.path.join(ws, "pkg"))
+        toml = "num_workers = 1\n" + ("fail_fast = true\n" if how == "config" else "")
+        open(os.path.join(ws, "grog.toml"), "w").write(toml)
+        targets = [{"name": f"t{i}", "command": 'echo S >> "$GROG_WORKSPACE_ROOT/../trace"; sleep 0.2; exit 1'} for i in range(N_WIDE)]
+        json.dump({"targets": targets}, open(os.path.join(ws, "pkg", "BUILD.json"), "w"))
+        env = dict(os.environ, GROG_ROOT=os.path.join(base, "root"), HOME=base, NO_COLOR="1")
+        try:
+            p = subprocess.run([grog, "build"] + (["--fail-fast"] if how == "flag" else []) + ["//..."], cwd=ws, env=env, capture_output=True, text=True, timeout=120)
+        except subprocess.TimeoutExpired:
+            chk.violation("failfast:build-does-not-return", f"{how}: a build of {N_WIDE} independent failing targets did not return within 120 s", {"how": how})
+            continue
+        tr = os.path.join(base, "trace")
+        started = len(open(tr).read().split()) if os.path.exists(tr) else 0
+        results[how] = {"started": started, "rc": p.returncode}
+        chk.count(("failfast-cli", how), nontrivial=True)
+        if p.returncode == 0:
+            chk.violation("failfast:exit-zero", f"{how}: every target fails and grog exits 0", {"how": how, "tail": (p.stdout + p.stderr)[-400:]})
+        if how == "keep-going" and started != N_WIDE:
+            chk.violation("keepgoing:independent-target-not-built", f"keep-going: {started} of {N_WIDE} independent failing targets were started", results[how])
+        if how != "keep-going" and started > N_WIDE // 2:
+            chk.violation("failfast:targets-start-after-the-first-failure", f"fail-fast ({how}), one worker: {started} of {N_WIDE} independent failing targets were started "
+                          "(after the first failure at most the task already handed to the worker may still start)", results[how])
+    chk.cov["failfast_cli"] = results
+
 
 def run(chk, tmp, replay=None):
     walker_engine.run(chk, tmp, "C05")
     _hist.run(chk, tmp, "C05")
+    failfast_cli(chk, tmp)
